@@ -22,7 +22,7 @@ S == INSTANCE SignServer WITH Reqs <- TReqs, KeyNames <- TKeys, ResolveTo <- TRe
                               SigTypes <- {}, Digests <- {}, Sinks <- TSinks, Variant <- "code"
 
 R == INSTANCE Relic WITH Reqs <- TReqs, KeyNames <- TKeys, ResolveTo <- TResolve, SigTypes <- {}, Digests <- {},
-                         Sinks <- TSinks, MaxId <- 1, Variant <- "code", cache <- 0, cur <- 0, usedId <- 0
+                         Sinks <- TSinks, MaxId <- 1, Variant <- "code", cache <- 0, cur <- 0, usedId <- 0, serving <- TRUE
 
 tvars == <<pc, params, used, amqp, file, sinkFailed, l, matched, answered, srv, tokensOpen>>
 
@@ -81,7 +81,12 @@ ShutdownDrained ==
   /\ UNCHANGED <<pc, params, used, amqp, file, sinkFailed, tokensOpen, matched, answered>>
 ShutdownEnd == Is("ShutdownEnd") /\ R!CloseTokens /\ UNCHANGED <<matched, answered>>
 
-TraceNext == ShutdownBegin \/ ShutdownDrained \/ ShutdownEnd \/ Request \/ SignDone \/ AuditAmqp \/ AuditFile \/ ResponseWrite \/ Response \/ Record \/ End
+\* Serve() returned: nothing may still be visibly in flight and the drain must be over
+ServeReturned ==
+  /\ Is("ServeReturned") /\ Visible = {} /\ srv \in {"drained", "closed"}
+  /\ UNCHANGED <<pc, params, used, amqp, file, sinkFailed, srv, tokensOpen, matched, answered>>
+
+TraceNext == ServeReturned \/ ShutdownBegin \/ ShutdownDrained \/ ShutdownEnd \/ Request \/ SignDone \/ AuditAmqp \/ AuditFile \/ ResponseWrite \/ Response \/ Record \/ End
 TraceSpec == TraceInit /\ [][TraceNext]_tvars
 
 AuditComplete == S!AuditComplete
